@@ -294,11 +294,16 @@ def op_concatenate(rng, chinfo, dtype):
     legs = _legs(rng, chinfo, rk)
     ax = int(rng.integers(0, rk))
     a = gen.random_array(rng, legs, dtype, labels=_labels(rk))
-    legs2 = list(legs)
-    legs2[ax] = gen.random_leg(rng, chinfo, qconj=legs[ax].qconj)
-    b = gen.random_array(rng, legs2, dtype, qtotal=a.qtotal, labels=_labels(rk))
-    r = npc.concatenate([a, b], axis=ax)
-    return Case('concatenate', [a, b], r, np.concatenate([a.to_ndarray(), b.to_ndarray()], axis=ax), _labels(rk), a.qtotal.copy())
+    # further operands: the leg that is stacked may point either way ("either direction of each leg"); 2 or 3 operands
+    ops = [a]
+    for _ in range(int(rng.integers(1, 3))):
+        legs2 = list(legs)
+        legs2[ax] = gen.random_leg(rng, chinfo, qconj=int(rng.choice([1, -1])))
+        ops.append(gen.random_array(rng, legs2, dtype, qtotal=a.qtotal, labels=_labels(rk)))
+    r = npc.concatenate(ops, axis=ax)
+    flipped = any(o.legs[ax].qconj != a.legs[ax].qconj for o in ops[1:])
+    return Case('concatenate' + ('[mixed leg directions]' if flipped else ''), ops, r, np.concatenate([o.to_ndarray() for o in ops], axis=ax),
+                _labels(rk), a.qtotal.copy())
 
 
 def op_scale_axis(rng, chinfo, dtype):
